@@ -79,6 +79,20 @@ func (e *Eng) assign(st *State, lhs ast.Expr, v *Val) {
 			e.gap("index-assign on %T", bt)
 		}
 	case *ast.StarExpr:
+		p := e.eval(st, l.X)
+		pt, _ := e.info.TypeOf(l.X).Underlying().(*types.Pointer)
+		if pt != nil && p.Sort == "Int" {
+			e.nilCheck(st, p, l.X, l.Pos())
+			if stt, ok := pt.Elem().Underlying().(*types.Struct); ok && v.Sort == "Struct" {
+				for i := 0; i < stt.NumFields(); i++ {
+					e.heapWrite(st, pt, stt.Field(i).Name(), p.T, v.Elems[i], stt.Field(i).Type())
+				}
+				return
+			}
+			name, _ := e.heapName("P", pt.Elem())
+			e.heapWriteComp(st, name, p.T, e.coerce(v, pt.Elem()))
+			return
+		}
 		e.gap("assign through *p: %s", e.src(l))
 		e.havocHeap(st)
 	default:
@@ -412,6 +426,21 @@ func (e *Eng) eval(st *State, x ast.Expr) *Val {
 	case *ast.CompositeLit:
 		return e.evalComposite(st, x)
 	case *ast.StarExpr:
+		p := e.eval(st, x.X)
+		pt, _ := e.info.TypeOf(x.X).Underlying().(*types.Pointer)
+		if pt != nil && p.Sort == "Int" {
+			e.nilCheck(st, p, x.X, x.Pos())
+			if stt, ok := pt.Elem().Underlying().(*types.Struct); ok {
+				v := &Val{Sort: "Struct", Go: pt.Elem()}
+				for i := 0; i < stt.NumFields(); i++ {
+					v.Names = append(v.Names, stt.Field(i).Name())
+					v.Elems = append(v.Elems, e.heapRead(st, pt, stt.Field(i).Name(), p.T, stt.Field(i).Type()))
+				}
+				return v
+			}
+			name, _ := e.heapName("P", pt.Elem())
+			return e.heapReadComp(st, name, p.T, pt.Elem())
+		}
 		e.gap("deref %s abstracted", e.src(x))
 		return e.freshVal("deref", e.info.TypeOf(x))
 	case *ast.FuncLit:
@@ -427,6 +456,8 @@ func (e *Eng) freshNonNil(name string, t types.Type) *Val {
 	v := e.freshVal(name, t)
 	if v.Sort == "Int" {
 		e.decls = append(e.decls, fmt.Sprintf("(assert (> %s 0))", v.T))
+		e.declareOnce("(declare-fun islocal (Int) Bool)")
+		e.decls = append(e.decls, fmt.Sprintf("(assert (islocal %s))", v.T))
 		if e.localRefs == nil {
 			e.localRefs = map[string]bool{}
 		}
@@ -438,9 +469,11 @@ func (e *Eng) freshNonNil(name string, t types.Type) *Val {
 // pureWrite: a function declared `pure` may only write objects it allocated itself.
 func (e *Eng) pureWrite(st *State, ref string, what string) {
 	if e.con != nil && e.con.Pure && !e.localRefs[ref] {
-		e.oblige(st, "pure", "heap-write "+what, "false", token.NoPos)
+		e.declareOnce("(declare-fun islocal (Int) Bool)")
+		e.oblige(st, "pure", "heap-write "+what, "(islocal "+ref+")", token.NoPos)
 	}
 	if e.con != nil && e.con.HasFrame && !e.localRefs[ref] {
+		e.declareOnce("(declare-fun islocal (Int) Bool)")
 		name := what
 		switch what {
 		case "slice element":
@@ -449,7 +482,8 @@ func (e *Eng) pureWrite(st *State, ref string, what string) {
 			name = "MH$"
 		}
 		if !frameMatchAny(name, e.con.Modifies) {
-			e.oblige(st, "modifies", "heap-write outside frame "+what, "false", token.NoPos)
+			// allowed only if the object written was allocated by this very function
+			e.oblige(st, "modifies", "heap-write outside frame "+what, "(islocal "+ref+")", token.NoPos)
 		}
 	}
 }
@@ -696,6 +730,18 @@ func (e *Eng) evalBinary(st *State, x *ast.BinaryExpr) *Val {
 	case token.SUB:
 		if l.Sort == "Int" {
 			return scalar(e.define("a", "Int", e.wrap(t, fmt.Sprintf("(- %s %s)", l.T, r.T))), "Int", t)
+		}
+	case token.QUO, token.REM:
+		if tv, ok := e.info.Types[x.Y]; ok && tv.Value != nil && l.Sort == "Int" {
+			c := atoi(tv.Value.ExactString())
+			if c > 0 {
+				// Go division truncates toward zero
+				q := fmt.Sprintf("(ite (>= %s 0) (div %s %d) (- (div (- %s) %d)))", l.T, l.T, c, l.T, c)
+				if x.Op == token.QUO {
+					return scalar(e.define("q", "Int", q), "Int", t)
+				}
+				return scalar(e.define("r", "Int", fmt.Sprintf("(- %s (* %d %s))", l.T, c, q)), "Int", t)
+			}
 		}
 	case token.SHR:
 		// exact for non-negative lhs and constant rhs
